@@ -29,11 +29,13 @@ pub struct Cfg {
     pub limit: Option<usize>,
     /// per-mille weight of an injected fault at the libc boundary (inject.rs)
     pub w_fault: usize,
+    /// per-mille weight of a `set_payload_max_size` in the middle of a history (applies to later connections)
+    pub w_limit: usize,
 }
 
 impl Cfg {
     pub fn base(prop: &'static str) -> Cfg {
-        Cfg { prop, max_clients: 4, steps: 40, w_close: 0, w_shut: 0, w_garbage: 0, w_flush: 0, w_kill: 0, with_kill: false, big: false, witness: false, reconnect: false, limit: None, w_fault: 0 }
+        Cfg { prop, max_clients: 4, steps: 40, w_close: 0, w_shut: 0, w_garbage: 0, w_flush: 0, w_kill: 0, with_kill: false, big: false, witness: false, reconnect: false, limit: None, w_fault: 0, w_limit: 0 }
     }
 }
 
@@ -83,6 +85,15 @@ impl Sim {
             1 => rng.range(100, 1500),
             _ => 0,
         };
+        // the limit this connection got when it was accepted (if it is not accepted yet: the current one)
+        let lim = self.w.clients[i].limit.unwrap_or(self.w.cur_limit);
+        // the witness stays well-behaved: it never declares more than its limit
+        let body_len = if self.cfg.witness && i == 0 && body_len > lim { 0 } else { body_len };
+        if body_len > lim {
+            // it will be answered with a 400: from here on the client is not a well-behaved one
+            self.plans[i].sent_garbage = true;
+            self.w.clients[i].misbehaved = true;
+        }
         let mut req = Vec::new();
         let m = if body_len > 0 { *rng.pick(&["PUT", "PATCH"]) } else { *rng.pick(&["GET", "PUT", "PATCH"]) };
         let v = *rng.pick(&["HTTP/1.1", "HTTP/1.0"]);
@@ -216,9 +227,11 @@ impl Sim {
         let c = &self.cfg;
         let r = rng.below(1000);
         let mut acc = 0;
+        // a weight of zero never fires (also not when an earlier branch was drawn but its side condition failed)
         let mut pick = |w: usize| {
+            let lo = acc;
             acc += w;
-            r < acc
+            w > 0 && lo <= r && r < acc
         };
         if pick(c.w_kill) && c.with_kill && !self.w.killed {
             self.w.signal_kill(rec);
@@ -242,6 +255,9 @@ impl Sim {
             self.w.flush(rec);
         } else if pick(c.w_fault) && !live.is_empty() {
             self.fault_step(rec, rng);
+        } else if pick(c.w_limit) {
+            let l = *rng.pick(&[0usize, 10, 120, 2000, 51200]);
+            self.w.set_limit(rec, l);
         } else {
             match rng.below(100) {
                 0..=9 => {
@@ -252,7 +268,9 @@ impl Sim {
                 10..=39 => {
                     if !live.is_empty() {
                         let i = *rng.pick(&live);
-                        if !self.plans[i].sent_garbage {
+                        // a client that sent garbage may go on with well-formed requests (it no longer counts as
+                        // well-behaved, but the model must still agree on what is yielded and answered)
+                        if !self.plans[i].sent_garbage || rng.chance(1, 3) {
                             self.send_next(rec, rng, i);
                         }
                     }
@@ -713,6 +731,9 @@ pub fn c09(rec: &mut Rec, rng: &mut Rng, thorough: bool) {
         cfg.reconnect = true;
         cfg.max_clients = 4;
         cfg.big = rng.chance(1, 2); // clients that never read responses larger than the socket buffer
+        cfg.w_limit = if rng.chance(1, 3) { 25 } else { 0 };
+        // flush closes a connection whose socket is full (DESIGN §6), so it is mixed in only with small responses
+        cfg.w_flush = if !cfg.big && rng.chance(1, 3) { 25 } else { 0 };
         let mut sim = run_history(rec, rng, cfg, "misbehaving");
         witness_rounds(rec, rng, &mut sim);
         sim.settle(rec, rng);
